@@ -1,5 +1,9 @@
 """C05 — linearised observation equations equal the true Jacobian and misclosure."""
 import math
+import re
+import shutil
+import tempfile
+import time
 from lib.core import *
 from gen import c05_linearization as tr
 
@@ -554,12 +558,452 @@ def correspond(ctx, corr):
     for meta, ob, bad, lines in fails[:20]:
         corr.fail(bad["what"], {"stream": "lin-fd", "ops": lines, "detail": bad, "meta": meta, "ob": ob},
                   "LocalLinearization::" + ob["cls"].lower(), json.dumps(bad))
+    # network level: project_equations run repeatedly on one LocalNetwork
+    for f in net_stream(ctx, corr, ctx.size(40, 1500))[:20]:
+        corr.failures.append(f)
+    if corr.stats.get("net_height_only_points", 0) < 10:
+        corr.inconclusive.append("network stream: fewer than 10 free height-only points")
     if nobs and len(corr.nontrivial) < 200:
         corr.inconclusive.append(f"only {len(corr.nontrivial)} distinct non-trivial observations")
     for cls in CLASSES:
         if corr.stats.get("obs_" + cls, 0) < 20:
             corr.inconclusive.append(f"class {cls} generated fewer than 20 times")
 
+
+
+# ----------------------------------------------------------------------------- network-level stream
+
+AXES = ["ne", "sw", "es", "wn", "en", "nw", "se", "ws"]
+
+
+def _frame(axes, angles):
+    comp = {"n": (0.0, 1.0), "s": (0.0, -1.0), "e": (1.0, 0.0), "w": (-1.0, 0.0)}
+    (xE, xN), (yE, yN) = comp[axes[0]], comp[axes[1]]
+    return xE, xN, yE, yN, angles == "left-handed"
+
+
+def _north_angle(F, dx, dy):
+    xE, xN, yE, yN, cw = F
+    a = math.atan2(dx * xE + dy * yE, dx * xN + dy * yN)
+    if not cw:
+        a = -a
+    return a % (2 * math.pi)
+
+
+def gen_network(rng):
+    """a mixed network as .gkf text: fixed and free 2D points, 3D points, height-only benchmarks,
+    direction sets (orientations), distances, angles (sometimes bs = fs), azimuths, slope
+    distances, zenith angles, height differences.  Returns (text, meta)."""
+    axes, angles = rng.choice(AXES), rng.choice(["left-handed", "right-handed"])
+    F = _frame(axes, angles)
+    pts = {}           # id -> dict(x,y,z, kind, attr)
+    used = []
+
+    def place():
+        for _ in range(200):
+            x, y = rng.uniform(1000, 2000), rng.uniform(5000, 6000)
+            if all(math.hypot(x - u[0], y - u[1]) > 60 for u in used):
+                used.append((x, y))
+                return x, y
+        used.append((x, y))
+        return x, y
+
+    def pid(prefix):
+        return prefix + str(len(pts) + 1) if rng.random() < 0.6 else str(100 * rng.randint(1, 9) + len(pts) + 1)
+
+    n3 = rng.choice([0, 0, 1, 2])
+    nfix = rng.choice([2, 2, 3])
+    for i in range(nfix):
+        x, y = place()
+        z = rng.uniform(200, 300)
+        with3 = n3 > 0 and i == 0
+        pts[pid("F")] = dict(x=x, y=y, z=z, kind="fix3" if with3 else "fix2")
+    for i in range(rng.randint(1, 3)):
+        x, y = place()
+        pts[pid("P")] = dict(x=x, y=y, z=None, kind="free2", con=rng.random() < 0.25)
+    for i in range(n3):
+        x, y = place()
+        pts[pid("T")] = dict(x=x, y=y, z=rng.uniform(200, 300), kind="free3", con=rng.random() < 0.2)
+    nh = rng.choice([1, 2, 2, 3])
+    hid = []
+    h0 = pid("H")
+    pts[h0] = dict(x=None, y=None, z=rng.uniform(200, 300), kind="hfix")
+    hid.append(h0)
+    for i in range(nh):
+        k = pid("H")
+        pts[k] = dict(x=None, y=None, z=rng.uniform(200, 300), kind="hfree", con=rng.random() < 0.2)
+        hid.append(k)
+    xy = [k for k, p in pts.items() if p["x"] is not None]
+    p3 = [k for k, p in pts.items() if p["kind"] in ("fix3", "free3")]
+    L = ['<?xml version="1.0" ?>', '<gama-local xmlns="http://www.gnu.org/software/gama/gama-local">',
+         f'<network axes-xy="{axes}" angles="{angles}">', '<parameters sigma-act="apriori" />',
+         '<points-observations direction-stdev="10" angle-stdev="10" distance-stdev="5" zenith-angle-stdev="10" azimuth-stdev="10">']
+    for k, p in pts.items():
+        noise = (lambda: rng.uniform(-0.3, 0.3)) if p["kind"] in ("free2", "free3", "hfree") else (lambda: 0.0)
+        a = f'<point id="{k}"'
+        if p["x"] is not None:
+            a += f' x="{p["x"] + noise():.4f}" y="{p["y"] + noise():.4f}"'
+        if p["kind"] in ("fix3", "free3", "hfix", "hfree"):
+            a += f' z="{p["z"] + noise():.4f}"'
+        a += {"fix2": ' fix="xy"', "fix3": ' fix="xyz"', "hfix": ' fix="z"',
+              "free2": ' adj="XY"' if p.get("con") else ' adj="xy"',
+              "free3": ' adj="XYZ"' if p.get("con") else ' adj="xyz"',
+              "hfree": ' adj="Z"' if p.get("con") else ' adj="z"'}[p["kind"]]
+        L.append(a + " />")
+
+    def az(a, b):
+        return _north_angle(F, pts[b]["x"] - pts[a]["x"], pts[b]["y"] - pts[a]["y"])
+
+    def gon(r):
+        return (r % (2 * math.pi)) * 200 / math.pi
+
+    def hd(a, b):
+        return math.hypot(pts[b]["x"] - pts[a]["x"], pts[b]["y"] - pts[a]["y"])
+
+    nobs = 0
+    stations = rng.sample(xy, min(len(xy), rng.randint(2, 4)))
+    for st in stations:
+        others = [k for k in xy if k != st]
+        L.append(f'<obs from="{st}">')
+        ori = rng.uniform(0, 2 * math.pi)
+        for t in rng.sample(others, min(len(others), rng.randint(2, 4))):
+            L.append(f'<direction to="{t}" val="{gon(az(st, t) - ori + rng.gauss(0, 2e-5)):.6f}" />')
+            nobs += 1
+        for t in others:
+            if rng.random() < 0.7:
+                L.append(f'<distance to="{t}" val="{hd(st, t) + rng.gauss(0, 0.003):.4f}" />')
+                nobs += 1
+        if len(others) >= 2 and rng.random() < 0.6:
+            b, f = rng.sample(others, 2)
+            if rng.random() < 0.15:
+                f = b                                   # angle with identical targets
+            L.append(f'<angle bs="{b}" fs="{f}" val="{gon(az(st, f) - az(st, b) + rng.gauss(0, 2e-5)):.6f}" />')
+            nobs += 1
+        if rng.random() < 0.3:
+            t = rng.choice(others)
+            L.append(f'<azimuth to="{t}" val="{gon(az(st, t) + rng.gauss(0, 2e-5)):.6f}" />')
+            nobs += 1
+        if st in p3:
+            for t in p3:
+                if t != st:
+                    dz = pts[t]["z"] - pts[st]["z"]
+                    sd = math.sqrt(hd(st, t) ** 2 + dz * dz)
+                    za = math.acos(dz / sd)
+                    if rng.random() < 0.3:
+                        za = 2 * math.pi - za              # second face
+                    L.append(f'<s-distance to="{t}" val="{sd + rng.gauss(0, 0.003):.4f}" />')
+                    L.append(f'<z-angle to="{t}" val="{gon(za + rng.gauss(0, 2e-5)):.6f}" />')
+                    nobs += 2
+        L.append("</obs>")
+    # every free xy point must be tied by distances from two other points
+    for k, p in pts.items():
+        if p["kind"] in ("free2", "free3"):
+            L.append(f'<obs from="{k}">')
+            for t in rng.sample([q for q in xy if q != k], 2):
+                L.append(f'<distance to="{t}" val="{hd(k, t) + rng.gauss(0, 0.003):.4f}" />')
+                nobs += 1
+            L.append("</obs>")
+    L.append("<height-differences>")
+    zs = hid + p3
+    ring = hid + [hid[0]]
+    for a, b in zip(ring, ring[1:]):
+        L.append(f'<dh from="{a}" to="{b}" val="{pts[b]["z"] - pts[a]["z"] + rng.gauss(0, 0.001):.4f}" stdev="1.0" />')
+        nobs += 1
+    for t in p3:
+        a = rng.choice(hid)
+        L.append(f'<dh from="{a}" to="{t}" val="{pts[t]["z"] - pts[a]["z"] + rng.gauss(0, 0.001):.4f}" stdev="1.0" />')
+        nobs += 1
+    if rng.random() < 0.15:
+        a = rng.choice(zs)
+        L.append(f'<dh from="{a}" to="{a}" val="0.0003" stdev="1.0" />')      # a point levelled to itself
+    L.append("</height-differences>")
+    L += ["</points-observations>", "</network>", "</gama-local>"]
+    free = [k for k, p in pts.items() if p["kind"] in ("free2", "free3", "hfree")]
+    victim = rng.choice(free)
+    what = {"free2": "xy", "hfree": "z", "free3": rng.choice(["xy", "z", "xyz"])}[pts[victim]["kind"]]
+    meta = {"axes": axes, "angles": angles, "kinds": {k: p["kind"] for k, p in pts.items()},
+            "drop": [victim, what], "height_only": sum(1 for p in pts.values() if p["kind"] == "hfree")}
+    return "\n".join(L) + "\n", meta
+
+
+def net_harness(ctx):
+    for attempt in range(3):
+        try:
+            d = ctx.build_gama(sanitize=True, targets=("gama-local",))
+            break
+        except BuildError as e:
+            if attempt == 2 or "No such file or directory" not in e.log:
+                raise
+            time.sleep(3 + 5 * attempt)
+    objs = sorted(str(p) for p in (d / "CMakeFiles" / "libgama.dir").rglob("*.o"))
+    if not objs:
+        raise BuildError("c05_net", "no libgama objects under " + str(d))
+    return ctx.build_cpp("c05_net", [ctx.verif / "harness" / "c05_net.cpp"], libs=objs + ["-lexpat"])
+
+
+def crash_head(exe, ops):
+    """first lines of the sanitizer report for one crashing case"""
+    try:
+        rc, out, err = run_proc(exe, "case 0\n" + "".join(o + "\n" for o in ops), timeout=120)
+    except Exception as e:                      # noqa: BLE001
+        return f"crash (re-run failed: {e})"
+    keep = [l.strip() for l in err.splitlines() if "ERROR:" in l or "runtime error" in l or re.match(r"\s*#\d+ ", l)]
+    return "\n".join(keep[:9]) or err[:800]
+
+
+def split_passes(out):
+    """harness output of one case -> list of passes {P: [...], rows: [...], unk: {col: label}, n: (cols, rows)}"""
+    passes, cur = [], None
+    for l in out:
+        if l.startswith("P cs"):
+            cur = {"P": [], "rows": [], "unk": {}, "n": None}
+            passes.append(cur)
+        if cur is None:
+            continue
+        if l.startswith("P "):
+            cur["P"].append(l[2:])
+        elif l.startswith("R row"):
+            t = l.split()
+            n = int(t[3])
+            cur["rows"].append((hex2float(t[2]), [(int(t[4 + 2 * i]), hex2float(t[5 + 2 * i])) for i in range(n)]))
+        elif l.startswith("R unk"):
+            t = l.split()
+            cur["unk"][int(t[2])] = tuple(t[3:])
+        elif l.startswith("R n"):
+            cur["n"] = tuple(map(int, l.split()[2:4]))
+            cur = None
+    return passes
+
+
+def model_lines(passes):
+    """the same passes as a script for drv_lin: state lines, `reset`, the observations in row order"""
+    lines, marks = [], []
+    for ps in passes:
+        head = [l for l in ps["P"] if not l.startswith("obs")]
+        obs = [l for l in ps["P"] if l.startswith("obs")]
+        lines += head + ["reset"] + obs
+        ids = [l.split()[1] for l in head if l.startswith("pt ")]
+        sps = [l.split()[1] for l in head if l.startswith("sp ")]
+        lines += [f"idx {i}" for i in ids] + [f"idxo {k}" for k in sps] + ["maxn"]
+        marks.append((len(head) + 1, len(obs), ids, sps))
+    return lines, marks
+
+
+def compare_pass(ps, mout, mark):
+    """implementation pass vs model output segment; returns None or a description"""
+    nhead, nobs, ids, sps = mark
+    seg = mout[nhead:]
+    rows = seg[:nobs]
+    if len(rows) != len(ps["rows"]):
+        return "row count"
+    for (rhs, ent), ml in zip(ps["rows"], rows):
+        L = parse_lin(ml)
+        if L is None:
+            return "model: " + ml
+        if len(L["rows"]) != len(ent) or [c for c, _ in L["rows"]] != [c for c, _ in ent]:
+            return f"columns differ: impl {[c for c, _ in ent]} model {[c for c, _ in L['rows']]}"
+        for (c, v), (_, w) in zip(ent, L["rows"]):
+            if not (v == w or abs(v - w) <= 1e-12 * max(abs(v), abs(w))):
+                return f"coefficient differs in column {c}: impl {v!r} model {w!r}"
+        if not (rhs == L["rhs"] or abs(rhs - L["rhs"]) <= 1e-9 * max(1.0, abs(rhs))):
+            return f"rhs differs: impl {rhs!r} model {L['rhs']!r}"
+    tail = seg[nobs:]
+    stat = {l.split()[1]: (l.split()[5], l.split()[6]) for l in ps["P"] if l.startswith("pt ")}
+    station = {l.split()[1]: l.split()[2] for l in ps["P"] if l.startswith("sp ")}
+    want = {}
+    for i, l in zip(ids, tail[:len(ids)]):
+        ix, iy, iz = map(int, l.split()[1:4])
+        if stat[i][0] != "u" and iy:
+            want[ix], want[iy] = ("X", i), ("Y", i)
+        if stat[i][1] != "u" and iz:
+            want[iz] = ("Z", i)
+    for k, l in zip(sps, tail[len(ids):len(ids) + len(sps)]):
+        io = int(l.split()[1])
+        if io and stat.get(station[k], ("u", "u"))[0] != "u":
+            want[io] = ("R", station[k], k)
+    maxn = int(tail[len(ids) + len(sps)].split()[1])
+    if maxn != ps["n"][0]:
+        return f"number of unknowns: impl {ps['n'][0]} model {maxn}"
+    if want != ps["unk"]:
+        return f"unknown table differs: impl {ps['unk']} model {want}"
+    return None
+
+
+def label_check(ps):
+    """oracle (implementation only): every column carries a distinct label naming an adjusted
+    coordinate / an orientation, and every row entry points at a labelled column"""
+    cols = ps["n"][0]
+    stat = {l.split()[1]: (l.split()[5], l.split()[6]) for l in ps["P"] if l.startswith("pt ")}
+    seen = {}
+    for j in range(1, cols + 1):
+        lab = ps["unk"].get(j)
+        if not lab or lab[0] == "?":
+            return {"what": "design-matrix column without an unknown", "column": j, "table": {str(k): v for k, v in ps["unk"].items()}}
+        if lab in seen:
+            return {"what": "two columns carry the same unknown", "columns": [seen[lab], j], "label": lab}
+        seen[lab] = j
+        if lab[0] in "XY" and stat.get(lab[1], ("u", "u"))[0] not in "ac":
+            return {"what": "column labelled with a coordinate that is not adjusted", "column": j, "label": lab}
+        if lab[0] == "Z" and stat.get(lab[1], ("u", "u"))[1] not in "ac":
+            return {"what": "column labelled with a coordinate that is not adjusted", "column": j, "label": lab}
+    for r, (rhs, ent) in enumerate(ps["rows"]):
+        for c, v in ent:
+            if not 1 <= c <= cols:
+                return {"what": "row entry outside the design matrix", "row": r + 1, "column": c, "columns": cols}
+    return None
+
+
+NET_PREFIX = ["pass", "touch", "pass"]       # the pass under the finite-difference test is the SECOND one
+
+
+def fd_ops(ps):
+    """bump every unknown of the pass up and down and read the right-hand sides"""
+    ops, plan = [], []
+    hc, ho = 1e-4, 1e-6
+    for j in sorted(ps["unk"]):
+        lab = ps["unk"][j]
+        if lab[0] in "XYZ":
+            c = lab[0].lower()
+            ops += [f"bump {lab[1]} {c} {hx(hc)}", "rhs", f"bump {lab[1]} {c} {hx(-2 * hc)}", "rhs", f"bump {lab[1]} {c} {hx(hc)}"]
+            plan.append((j, lab, 1000.0))
+        elif lab[0] == "R":
+            ops += [f"bumpo {lab[2]} {hx(ho)}", "rhs", f"bumpo {lab[2]} {hx(-2 * ho)}", "rhs", f"bumpo {lab[2]} {hx(ho)}"]
+            plan.append((j, lab, R2CC))
+    return ops, plan
+
+
+def fd_net_check(ps, out_after, plan):
+    """columns of the design matrix of pass `ps` against central differences of the implementation's
+    own right-hand side wrt the unknown the column is labelled with"""
+    ev = [l for l in out_after if l.startswith(("E ok", "R rhs", "E throw", "E bad"))]
+    cls = [l.split()[1] for l in ps["P"] if l.startswith("obs")]
+    m = len(ps["rows"])
+    dense = [dict() for _ in range(m)]
+    for r, (rhs, ent) in enumerate(ps["rows"]):
+        for c, v in ent:
+            dense[r][c] = dense[r].get(c, 0.0) + v
+    rowmax = [max([abs(v) for v in d.values()] + [1e-300]) for d in dense]
+    k = 0
+    for j, lab, unit in plan:
+        seg = ev[k:k + 5]
+        k += 5
+        if len(seg) < 5 or not (seg[0].startswith("E ok") and seg[1].startswith("R rhs") and seg[2].startswith("E ok")
+                                and seg[3].startswith("R rhs")):
+            return None            # a bump made the network unusable: no statement
+        vp, vm = hex2float(seg[0].split()[2]), hex2float(seg[2].split()[2])
+        step = (vp - vm) / 2 * unit
+        rp = [hex2float(t) for t in seg[1].split()[2:]]
+        rm = [hex2float(t) for t in seg[3].split()[2:]]
+        if len(rp) != m or len(rm) != m or step == 0:
+            return None
+        for r in range(m):
+            if not all(map(math.isfinite, (rp[r], rm[r], ps["rows"][r][0]))):
+                continue
+            dr = rp[r] - rm[r]
+            if cls[r] in ANGULAR or cls[r] == "Z_Angle":
+                dr -= FULL * round(dr / FULL)
+            fd = -dr / (2 * step)
+            have = dense[r].get(j, 0.0)
+            tol = 5e-4 * rowmax[r] + 1e-6 + 8 * 4.5e-16 * (abs(ps["rows"][r][0]) + 4e6) / abs(step)
+            if abs(fd - have) > tol:
+                return {"what": "design-matrix column does not hold the derivative wrt the unknown it is labelled with",
+                        "row": r + 1, "observation": [l for l in ps["P"] if l.startswith("obs")][r],
+                        "column": j, "label": list(lab), "coefficient": have, "finite_difference": fd}
+    return None
+
+
+def net_stream(ctx, corr, count, stop_first=False):
+    """LocalNetwork::project_equations run several times on one object, against the model
+    (generated rows + index-on-first-use with the reset rule as coded) and the labelling oracle"""
+    exe = net_harness(ctx)
+    drv = ctx.driver("drv_lin")
+    tmp = Path(tempfile.mkdtemp(prefix="c05net-", dir=str(ctx.build)))
+    fails = []
+    try:
+        nets = []
+        corpus = ctx.verif / "corpus" / "C05"
+        for f in sorted(corpus.glob("net-*.gkf")) if corpus.exists() else []:
+            nets.append((f.read_text(), {"drop": None, "height_only": 1, "corpus": f.name}))
+        for i in range(count):
+            nets.append(gen_network(ctx.rng))
+        cases = []
+        for i, (text, meta) in enumerate(nets):
+            p = tmp / f"n{i}.gkf"
+            p.write_text(text)
+            ops = [f"load {p}", "pass", "touch", "pass", "refine", "pass"]
+            if meta.get("drop"):
+                ops += [f"drop {meta['drop'][0]} {meta['drop'][1]}", "pass"]
+            cases.append(ops)
+        impl, crashes = run_cases(exe, cases)
+        allp = [split_passes(o) for o in impl]
+        mcases, marks = [], []
+        for ps in allp:
+            ml, mk = model_lines(ps)
+            mcases.append(ml)
+            marks.append(mk)
+        model, mcr = run_cases(drv, mcases)
+        fdcases, fdplans = [], []
+        for i, (text, meta) in enumerate(nets):
+            corr.count("net_networks")
+            payload = {"stream": "net", "gkf": text, "ops": [o if not o.startswith("load") else "load <gkf>" for o in cases[i]]}
+            if i in crashes:
+                corr.case()
+                head = crash_head(exe, cases[i])
+                f = Failure("LocalNetwork::project_equations run again on the same network: " + (head.splitlines() or ["crash"])[0][:160],
+                            dict(payload, detail={"what": "sanitizer report", "report": head}),
+                            "LocalNetwork::project_equations", head)
+                fails.append(f)
+                continue
+            passes = allp[i]
+            if len(passes) < 2:
+                corr.case()
+                corr.count("net_unusable")
+                continue
+            corr.count("net_passes", len(passes))
+            corr.count("net_height_only_points", meta.get("height_only", 0))
+            off = 0
+            for k, ps in enumerate(passes):
+                mk = marks[i][k]
+                seglen = mk[0] + mk[1] + len(mk[2]) + len(mk[3]) + 1
+                seg = model[i][off:off + seglen]
+                off += seglen
+                why = compare_pass(ps, seg, mk) if len(seg) == seglen else "model output truncated"
+                nontriv = ps["n"][0] >= 3 and len({lab[0] for lab in ps["unk"].values()}) >= 2
+                corr.case(key=("net", ps["n"], tuple(sorted(lab[0] for lab in ps["unk"].values())), k) if nontriv else None,
+                          sample={"net_pass": k + 1, "unknowns": [" ".join(v) for _, v in sorted(ps["unk"].items())][:12]}
+                          if i == 0 and k == 1 else None)
+                if why:
+                    corr.disagree("net", payload["ops"] + [f"pass {k + 1}"], [why], ["(see replay: gkf)"], why)
+                bad = label_check(ps)
+                if bad:
+                    fails.append(Failure(bad["what"] + f" (project_equations pass {k + 1})", dict(payload, detail=bad, pass_no=k + 1),
+                                         "LocalNetwork::project_equations", json.dumps(bad)))
+            # finite differences on the second pass
+            ops2, plan = fd_ops(passes[1])
+            fdcases.append([cases[i][0]] + NET_PREFIX + ops2)
+            fdplans.append((i, plan))
+            if stop_first and fails:
+                break
+        if not (stop_first and fails):
+            fdout, fdcr = run_cases(exe, fdcases)
+            nfd = 0
+            for (i, plan), out in zip(fdplans, fdout):
+                ps = split_passes(out)
+                if len(ps) < 2:
+                    continue
+                after = out[max(j for j, l in enumerate(out) if l.startswith("R n")) + 1:]
+                bad = fd_net_check(ps[1], after, plan)
+                nfd += len(plan)
+                if bad:
+                    fails.append(Failure(bad["what"] + " (project_equations pass 2)",
+                                         {"stream": "net", "gkf": nets[i][0], "ops": ["load <gkf>"] + NET_PREFIX, "detail": bad, "pass_no": 2},
+                                         "LocalNetwork::project_equations", json.dumps(bad)))
+                    if stop_first:
+                        break
+            corr.count("net_fd_columns", nfd)
+    finally:
+        shutil.rmtree(tmp, ignore_errors=True)
+    return fails
 
 # ----------------------------------------------------------------------------- search
 
@@ -568,6 +1012,9 @@ def search(ctx, broken, corr):
     implementation's coefficients or rhs differ from finite differences / observed - computed."""
     exe = harness(ctx)
     out = []
+    nf = net_stream(ctx, Corr(), ctx.size(150, 1500), stop_first=True)
+    if nf:
+        return nf[:1]
     try:
         for rnd in range(ctx.size(6, 40)):
             metas = []
@@ -615,6 +1062,40 @@ def _meta_from_json(m):
     return m
 
 
+def replay_net(ctx, inp):
+    """re-run project_equations on the recorded network and re-evaluate the labelling oracle and the
+    finite differences of the second pass"""
+    exe = net_harness(ctx)
+    tmp = Path(tempfile.mkdtemp(prefix="c05net-", dir=str(ctx.build)))
+    try:
+        p = tmp / "replay.gkf"
+        p.write_text(inp["gkf"])
+        print(inp["gkf"])
+        ops = [o.replace("<gkf>", str(p)) for o in inp["ops"] if o.split()[0] != "pass" or True]
+        ops = [o for o in ops if not o.startswith("pass ")]
+        out, cr = run_cases(exe, [ops])
+        passes = split_passes(out[0])
+        still = None
+        if cr:
+            print("harness crashed:")
+            print(crash_head(exe, ops))
+        for k, ps in enumerate(passes):
+            print(f"pass {k + 1}: {ps['n']} unknowns:", " | ".join(f"{j}:{' '.join(v)}" for j, v in sorted(ps["unk"].items())))
+            still = still or label_check(ps)
+        if not still and len(passes) >= 2:
+            ops2, plan = fd_ops(passes[1])
+            out2, cr2 = run_cases(exe, [[f"load {p}"] + NET_PREFIX + ops2])
+            ps2 = split_passes(out2[0])
+            if len(ps2) >= 2:
+                after = out2[0][max(j for j, l in enumerate(out2[0]) if l.startswith("R n")) + 1:]
+                still = fd_net_check(ps2[1], after, plan)
+        print("recorded:", json.dumps(inp.get("detail")))
+        print("oracle now:", json.dumps(still) if still else "passes")
+        return 1 if (still or cr) else 0
+    finally:
+        shutil.rmtree(tmp, ignore_errors=True)
+
+
 def replay(ctx, payload):
     """re-run the recorded failing observation on the current tree: prints the implementation's
     answer and re-evaluates the oracle (rhs = observed - computed; coefficients vs central
@@ -625,6 +1106,8 @@ def replay(ctx, payload):
         return 0
     inp = f["input"]
     ops = inp.get("ops")
+    if inp.get("stream") == "net":
+        return replay_net(ctx, inp)
     exe = harness(ctx)
     impl, crashes = run_cases(exe, [ops])
     print("input:")
